@@ -224,6 +224,9 @@ pub fn run(ctx: &mut Ctx) {
     ctx.require_class("token_lists", "contains_spaces", cases / 4);
     ctx.require_class("token_lists", "empty_list", cases / 100);
     ctx.extra.insert("exhaustive_over".into(), json!("all 3,796 well-formed tokens x the listed weight literals"));
+    if ctx.tier == Tier::Thorough && !ctx.failed() {
+        crate::fuzzrun::campaign(ctx, "fz_notation", 40000, 16, 256);
+    }
 }
 
 pub fn replay(stream: &str, path: &str, case: &Value) -> i32 {
